@@ -28,3 +28,20 @@ Example ex1_validate_examples_seen_by_clone :
   CS.validate_plan ValidateExamples.ex_plan = true /\
   CS.validate_plan (ValidateExamples.ex_plan_with (ValidateExamples.k7 4)) = false.
 Proof. vm_compute. split; reflexivity. Qed.
+
+(* ---- item 2: coq/validate's 21-object example is submitted with Concurrency 0 in its first block: the shape of
+        the plan as submitted is NOT shape_wf, the shape of what Submit stores is (concurrencies 1 and 2),
+        retries (2 and 0) and group structure unchanged *)
+From Coercion.Engine Require Shape.
+From Coercion.Glue Require Import GlueEngine.
+
+Definition ex2_stored : option plan := hd_error (V.w_store (fst ValidateExamples.ex_result)).
+
+Example ex2_shape :
+  S.shape_wf (S.erase_plan ValidateExamples.ex_plan) = false /\
+  option_map (fun sp => S.shape_wf (S.erase_plan sp)) ex2_stored = Some true /\
+  option_map (fun sp => map S.bs_conc (S.sh_blocks (S.erase_plan sp))) ex2_stored = Some [1; 2] /\
+  map S.bs_conc (S.sh_blocks (S.erase_plan ValidateExamples.ex_plan)) = [0; 2] /\
+  option_map (fun sp => map S.bs_seqs (S.sh_blocks (S.erase_plan sp))) ex2_stored = Some [[[2; 0]]; [[2; 0]]] /\
+  option_map (fun sp => S.erase_plan sp) ex2_stored = Some (shape_norm (S.erase_plan ValidateExamples.ex_plan)).
+Proof. vm_compute. repeat split; reflexivity. Qed.
